@@ -403,7 +403,15 @@ def eval_bern(chk, case, impl, model):
     # predicate: -log of the Bernoulli mass at the clamped probability (documented clamp of torch), scipy as reference
     ref = -sst.bernoulli.logpmf(y, pc)
     ref2 = -(y * lp + (1 - y) * l1p)
-    bad = first_bad(close(v, ref, envl) | close(v, ref2, envl))
+    # entries under the mask carry weight 0: what is computed there is nobody's business (after F31 a value of the support is
+    # substituted before torch's log_prob); only observed entries are compared
+    obs = np.ones(v.shape, dtype=bool)
+    if case["t"].get("mask") is not None:
+        try:
+            obs = np.broadcast_to(to_np(case["t"]["mask"]).astype(bool), v.shape)
+        except Exception:  # noqa
+            obs = np.ones(v.shape, dtype=bool)
+    bad = first_bad(close(v, ref, envl) | close(v, ref2, envl) | ~obs)
     if bad is not None:
         chk.impl_failure(cj, f"Bernoulli nll entry {bad}: {float(v[bad])!r} but -log(p^y (1-p)^(1-y)) = {float(ref2[bad])!r} for p={float(p[bad])!r}, y={float(y[bad])!r}")
     if not np.isfinite(v).all():
@@ -415,7 +423,7 @@ def eval_bern(chk, case, impl, model):
     if list(v.shape) != model["shape"]:
         chk.disagree(cj, list(v.shape), model["shape"], "Bernoulli nll: result shape")
         return
-    bad = first_bad(close(v, mv, envl))
+    bad = first_bad(close(v, mv, envl) | ~obs)
     if bad is not None:
         chk.disagree(cj, float(v[bad]), float(mv[bad]), f"Bernoulli nll entry {bad} (p={float(p[bad])!r}, y={float(y[bad])!r})")
     ratio_tag(chk, "bern_model_dev/envelope", v, mv, envl)
